@@ -216,6 +216,9 @@ pub struct Track {
     pub elst: Option<Vec<(u64, i64, u32)>>,
     pub samples: Vec<Sample>,
     pub tkhd_payload_len: usize,
+    /// the last eight bytes of the tkhd payload: presentation width and height as unsigned 16.16 (the fields close
+    /// the box in version 0 and version 1 alike, also in the 88-byte variant the pinned tree writes)
+    pub tkhd_tail: Option<(u32, u32)>,
     pub tkhd_flags: u32,
     /// sample-entry fields
     pub width: Option<u16>,
@@ -239,6 +242,8 @@ pub struct Movie {
     pub trex_track_ids: Vec<u32>,
     /// per trex: (track id, default sample duration, size, flags)
     pub trex_defaults: Vec<(u32, u32, u32, u32)>,
+    /// mvex/mehd fragment_duration (movie timescale), if the box is there
+    pub mehd_duration: Option<u64>,
 }
 
 /// Structural problems found while decoding (C02 material).
@@ -270,6 +275,9 @@ pub fn decode_track(buf: &[u8], trak: &BoxNode, probs: &mut Problems) -> Track {
     if let Some(tkhd) = trak.child(b"tkhd") {
         let p = tkhd.payload(buf);
         t.tkhd_payload_len = p.len();
+        if p.len() >= 8 {
+            t.tkhd_tail = Some((be32(p, p.len() - 8), be32(p, p.len() - 4)));
+        }
         if let Some((v, fl)) = full(p) {
             t.tkhd_flags = fl;
             let id_off = if v == 1 { 20 } else { 12 };
@@ -683,6 +691,14 @@ pub fn decode_movie(buf: &[u8], tree: &[BoxNode], probs: &mut Problems) -> Movie
     }
     if let Some(mvex) = moov.child(b"mvex") {
         m.has_mvex = true;
+        if let Some(mehd) = mvex.child(b"mehd") {
+            let p = mehd.payload(buf);
+            match full(p) {
+                Some((0, _)) if p.len() == 8 => m.mehd_duration = Some(be32(p, 4) as u64),
+                Some((1, _)) if p.len() == 12 => m.mehd_duration = Some(be64(p, 4)),
+                _ => probs.push(format!("mehd: unexpected version/size (payload {} bytes)", p.len())),
+            }
+        }
         for trex in mvex.children_of(b"trex") {
             let p = trex.payload(buf);
             if p.len() == 24 {
